@@ -305,3 +305,8 @@ func Smoke(f func(), seed uint64, n int) (passed int) {
 	}
 	return passed
 }
+
+// LoopBound (engine only): inside functions whose name contains fnSubstr, a
+// path is cut at the (k+1)-th back edge to one loop header after running
+// onCut. Natively a no-op: the loop simply runs.
+func LoopBound(fnSubstr string, k int, onCut func()) {}
